@@ -1,11 +1,16 @@
+mod alloc;
 mod alphabets;
 mod checks;
 mod engine;
+mod logical;
 mod obs;
 mod ops;
 mod report;
 
 use report::*;
+
+#[global_allocator]
+static GLOBAL: alloc::Counting = alloc::Counting;
 use std::time::Instant;
 
 fn usage() -> ! {
